@@ -560,6 +560,11 @@ namespace bloch::runtime {
                 m_gcThread.join();
         }
         runCycleCollector();
+        if (m_pendingDestructorError) {
+            std::exception_ptr pending = m_pendingDestructorError;
+            m_pendingDestructorError = nullptr;
+            std::rethrow_exception(pending);
+        }
         // Ensure warnings appear before any normal echo output
         if (m_warnOnExit)
             warnUnmeasured();
@@ -1361,22 +1366,40 @@ namespace bloch::runtime {
                 m_inStaticContext = false;
                 m_inConstructor = false;
                 m_inDestructor = true;
+                size_t envDepth = m_env.size();
+                bool failed = false;
                 beginScope();
                 Value thisVal;
                 thisVal.type = Value::Type::Object;
                 thisVal.objectValue = std::shared_ptr<Object>(obj, [](Object*) {});
                 thisVal.className = cur->name;
                 m_env.back()["this"] = {thisVal, false, true};
-                for (auto& stmt : cur->destructorDecl->body->statements) {
-                    exec(stmt.get());
-                    if (m_hasReturn)
-                        break;
+                try {
+                    for (auto& stmt : cur->destructorDecl->body->statements) {
+                        exec(stmt.get());
+                        if (m_hasReturn)
+                            break;
+                    }
+                } catch (...) {
+                    // This code runs inside a shared_ptr deleter: letting the error escape would
+                    // end the process through std::terminate. Keep the first error, drop the
+                    // scopes the failed body left behind, finish releasing the object, and
+                    // re-raise the error at the next statement boundary.
+                    if (!m_pendingDestructorError)
+                        m_pendingDestructorError = std::current_exception();
+                    while (m_env.size() > envDepth + 1) {
+                        auto abandoned = std::move(m_env.back());
+                        m_env.pop_back();
+                    }
+                    failed = true;
                 }
                 endScope();
                 m_inDestructor = prevDtor;
                 m_inConstructor = prevCtor;
                 m_inStaticContext = prevStatic;
                 m_currentClassCtx = prevClass;
+                if (failed)
+                    break;
             }
             m_hasReturn = savedReturn;
         }
@@ -1663,6 +1686,11 @@ namespace bloch::runtime {
 #endif
         if (m_gcRequested.load())
             runCycleCollector();
+        if (m_pendingDestructorError && !m_inDestructor) {
+            std::exception_ptr pending = m_pendingDestructorError;
+            m_pendingDestructorError = nullptr;
+            std::rethrow_exception(pending);
+        }
         if (!s)
             return;
         auto isTruthy = [](const Value& v) {
